@@ -46,6 +46,7 @@ class Ctx:
         self.kernels: t.Dict[str, dict] = {}
         self.oracle_runs = 0
         self.extra: t.Dict[str, t.Any] = {}
+        self.area = "core"
 
     @property
     def thorough(self) -> bool:
@@ -92,7 +93,7 @@ def run_units(ctx: Ctx, units: t.Sequence[Unit]) -> None:
         for ci, c in enumerate(u.cases):
             all_cases.append((u.model_unit, enc(c)))
             index.append((ui, ci))
-    model_out = core.run_model(all_cases)
+    model_out = core.run_model(all_cases, area=ctx.area)
     pos = 0
     for ui, u in enumerate(units):
         st = {"cases": len(u.cases), "disagreements": 0, "impl_errors": {}, "sizes": {}}
@@ -143,12 +144,12 @@ def build_and_prove(ctx: Ctx, mod) -> bool:
         for name, st in ctx.kernels.items():
             if not st["located"]:
                 ctx.notes.append(f"kernel {name} not located ({st.get('reason')}); committed fallback definition used")
-        r = core.make(["Model/Units.vo"])
+        r = core.make([f"Model/Units_{ctx.area}.vo"])
         if not r["ok"]:
             ctx.violation("no-failing-input-found", "model-build", {"errors": r["errors"][:5]})
             ctx.extra["model_build_failed"] = True
             return False
-        okm, msg = core.ensure_modelrun()
+        okm, msg = core.ensure_modelrun(ctx.area)
         if not okm:
             ctx.violation("no-failing-input-found", "modelrun-build", {"errors": msg})
             ctx.extra["model_build_failed"] = True
@@ -199,7 +200,7 @@ def theorem_statements(prop: str, limit: int = 3) -> t.List[str]:
 
 TRUSTED_BASE = [
     "Coq 8.16.1 kernel/coqc (vm_compute used in finite-domain lemmas; no native_compute)",
-    "kernel extractor vlib/kernels.py (Python ast -> Gallina over Z/bool; selectors in vlib/kernel_table.py)",
+    "kernel extractor vlib/kernels.py (Python ast -> Gallina over Z/bool; selectors in vlib/ktab/*.py)",
     "extraction: ExtrOcamlBasic only (bool/option/unit/list/prod/sumbool/sumor mapped to OCaml natives, andb/orb inlined); Z, positive, nat, string stay Coq inductives; ocaml/driver.ml I/O glue; OCaml 4.13.1",
     "correspondence harness vlib/ (generators, canonicalisation, monkeypatches of clock/RNG/socket/resolver/crypto in the harness process)",
     "modelled-not-verified: cryptography, pyspnego, dnspython, socket/asyncio, CPython built-ins (see DESIGN.md section 4)",
@@ -210,6 +211,7 @@ def run_check(prop: str, tier: str, seed: int) -> int:
     core.setup_impl_path()
     ctx = Ctx(prop, tier, seed)
     mod = importlib.import_module(f"vlib.props.{prop.lower()}")
+    ctx.area = getattr(mod, "AREA", "core")
     proved = False
     try:
         proved = build_and_prove(ctx, mod)
@@ -250,7 +252,7 @@ def run_check(prop: str, tier: str, seed: int) -> int:
 
 def write_evidence(ctx: Ctx, mod) -> None:
     os.makedirs(os.path.join(core.VERIF, "evidence"), exist_ok=True)
-    my_kernels = {k.name: ctx.kernels.get(k.name, {}) for k in kernel_table.KERNELS if ctx.prop in k.props}
+    my_kernels = {k: v for k, v in ctx.kernels.items() if ctx.prop in v.get("props", [])}
     assumptions_text = {o["theorem"]: ("Closed under the global context" if o["assumptions"] == [] else o["assumptions"])
                         for o in ctx.obligations}
     doc = {
@@ -294,6 +296,7 @@ def replay(path: str) -> int:
     print(f"property {prop}: {doc.get('kind')} ; broken: {doc.get('broken')}")
     if "unit" in doc and "input" in doc:
         ctx = Ctx(prop, "quick", 0)
+        ctx.area = getattr(mod, "AREA", "core")
         ctx.replay_only = True  # type: ignore[attr-defined]
         units = {u.name: u for u in mod.units(ctx, only=doc["unit"])} if _accepts_only(mod) else {u.name: u for u in mod.units(ctx)}
         u = units.get(doc["unit"])
@@ -303,9 +306,9 @@ def replay(path: str) -> int:
         arg = dec(doc["input"])
         with core.build_lock():
             core.regen()
-            core.make(["Model/Units.vo"])
-            core.ensure_modelrun()
-        m = core.run_model([(u.model_unit, doc["input"])])[0]
+            core.make([f"Model/Units_{ctx.area}.vo"])
+            core.ensure_modelrun(ctx.area)
+        m = core.run_model([(u.model_unit, doc["input"])], area=ctx.area)[0]
         i = core.run_impl(u.impl, arg)
         print("input   :", doc["input"][:1000])
         print("model   :", m[:1000])
